@@ -311,6 +311,16 @@ def shard_cards(sh):
                 for phase in range(4):
                     types = "".join(b[(k + phase) % 4] for k in range(n))
                     todo.append((types, phase))
+    if sh["which"] != "short":
+        # whole continuation lines that are blank (8 small fields / 4 large fields), single and consecutive, after a
+        # line that ends in a blank or a non-blank field
+        for n in (20, 28, 33):
+            for L in (4, 8, 12, 16):
+                for a in range(3, n - L, 1 if L == 8 else 4):
+                    base = ["ifsf"[k % 4] for k in range(n)]
+                    for k in range(a, a + L):
+                        base[k] = "-"
+                    todo.append(("".join(base), 0))
     for types, phase in todo:
         for writer in ("8", "16", "16d"):
             msgs = check_card(types.replace("-", "b"), phase, writer, res)
